@@ -850,16 +850,75 @@ func init() {
 		},
 	}
 
+	// ---- time: inputs whose optional time fields are left at their zero value, serialized twice with more than a
+	// second of wall-clock time in between.  The repository has no clock seam to take over, so the one thing a
+	// harness can decide is that time passes: a serializer that fills in "now" gives different bytes.
+	clockCalls := []struct {
+		name string
+		run  func() ([]byte, error)
+	}{
+		{"SignedSubset.Encode with zero Date and Expires", func() ([]byte, error) {
+			ss := &signature.SignedSubset{ValidityUrl: c18MustURL("https://a.test/validity"), AuthSha256: bytes.Repeat([]byte{7}, 32),
+				SubsetHashes: map[string]*signature.ResponseHashes{"https://a.test/": {Hashes: []*signature.ResourceIntegrity{{HeaderSha256: bytes.Repeat([]byte{9}, 32), PayloadIntegrityHeader: "digest/mi-sha256-03"}}}}}
+			return ss.Encode()
+		}},
+		{"DumpSignedMessage(1b3) with a Signer whose Date and Expires are zero", func() ([]byte, error) {
+			c18Init()
+			sg := &signedexchange.Signer{Certs: []*x509.Certificate{fixtures.A.Leaf}, CertUrl: c18MustURL("https://a.test/cert.cbor"), ValidityUrl: c18MustURL("https://a.test/validity"),
+				PrivKey: fixtures.A.Key, Algorithm: &signingalgorithm.MockSigningAlgorithm{}}
+			var buf bytes.Buffer
+			err := c18W.ex[sxgversion.Version1b3].DumpSignedMessage(&buf, sg)
+			return buf.Bytes(), err
+		}},
+		{"AddSignatureHeader(1b2, mock algorithm) with a Signer whose Date and Expires are zero", func() ([]byte, error) {
+			sg := &signedexchange.Signer{Certs: []*x509.Certificate{fixtures.A.Leaf}, CertUrl: c18MustURL("https://a.test/cert.cbor"), ValidityUrl: c18MustURL("https://a.test/validity"),
+				PrivKey: fixtures.A.Key, Algorithm: &signingalgorithm.MockSigningAlgorithm{}}
+			e := signedexchange.NewExchange(sxgversion.Version1b2, "https://a.test/", "GET", http.Header{}, 200, http.Header{"Content-Type": {"text/html"}}, []byte("p"))
+			err := e.AddSignatureHeader(sg)
+			return []byte(e.SignatureHeaderValue), err
+		}},
+		{"Bundle.WriteTo(b2) + CertChain.Write (no time-valued input at all)", func() ([]byte, error) {
+			c18Init()
+			var buf bytes.Buffer
+			if _, err := c18W.bundleB2.WriteTo(&buf); err != nil {
+				return nil, err
+			}
+			err := c18W.chain.Write(&buf)
+			return buf.Bytes(), err
+		}},
+	}
+	clockH := &mc.Harness{
+		Name:      "C18/clock",
+		NoConfirm: true,
+		Mode:      "the same call before and after 1.1 s of wall-clock time",
+		Run: func(c *mc.Ctx) {
+			cc := clockCalls[c.Free(len(clockCalls), "call")]
+			first, err1 := cc.run()
+			time.Sleep(1100 * time.Millisecond)
+			second, err2 := cc.run()
+			c.Transitions(2)
+			c.Eval()
+			c.State([]byte(cc.name))
+			c.Nontrivial([]byte(cc.name))
+			if (err1 == nil) != (err2 == nil) || !bytes.Equal(first, second) {
+				c.Outcome("DIFFERENT BYTES")
+				c.Fail("C18/clock:"+cc.name, "the same logical input serialized 1.1 s later gives different bytes (the serializer reads the clock)", cc.name, fmt.Sprintf("%s err=%v", hx(first), err1), fmt.Sprintf("%s err=%v", hx(second), err2))
+				return
+			}
+			c.Outcome("same bytes 1.1 s later")
+		},
+	}
+
 	register(&mc.Property{
 		ID:    "C18",
 		Level: "model_checking",
-		Rule:  "four parts. permutations: 12 serializer inputs (3 of them header maps holding one name under several case spellings, where a refusal must be the same refusal every time) x maps of 1..4 entries x every insertion permutation x 6 repeated calls, all bytes equal to the identity-order baseline. histories: every sequence of <=2 (quick) / <=3 (thorough) operations from 18 serializer calls + 4 input mutations + 25 calls whose destination fails at a chosen Write, on one shared world; each output = the same call on a freshly built world in the same logical state, input memory (incl. spare capacity) unchanged, earlier returned slices unchanged. schedules: every unordered pair of the 18 serializer calls as 2 logical threads (thorough: plus every ascending triple of 8 core calls as 3 threads, and every 2-call thread against a 1-call thread over those 8) on shared inputs, ALL interleavings at hooked operations (verifhook.Point sites, every Write of the harness-owned writer) with at most 2 preemptions; each thread's bytes = its solo bytes. large-inputs: 3 calls on inputs that reach size-dependent paths (bundle of 80 exchanges with different header blocks, 100 KiB MI payload, 70-entry map), 3 repeated calls on the shared input + 1 on a fresh copy. races (auxiliary): every ordered pair as free-running goroutines in a -race build, and each large-input call against itself. Non-trivial = >=2 map entries / non-empty history / a complete schedule; distinct by (scenario, vector).",
+		Rule:  "four parts. permutations: 12 serializer inputs (3 of them header maps holding one name under several case spellings, where a refusal must be the same refusal every time) x maps of 1..4 entries x every insertion permutation x 6 repeated calls, all bytes equal to the identity-order baseline. histories: every sequence of <=2 (quick) / <=3 (thorough) operations from 18 serializer calls + 4 input mutations + 25 calls whose destination fails at a chosen Write, on one shared world; each output = the same call on a freshly built world in the same logical state, input memory (incl. spare capacity) unchanged, earlier returned slices unchanged. schedules: every unordered pair of the 18 serializer calls as 2 logical threads (thorough: plus every ascending triple of 8 core calls as 3 threads, and every 2-call thread against a 1-call thread over those 8) on shared inputs, ALL interleavings at hooked operations (verifhook.Point sites, every Write of the harness-owned writer) with at most 2 preemptions; each thread's bytes = its solo bytes. large-inputs: 3 calls on inputs that reach size-dependent paths (bundle of 80 exchanges with different header blocks, 100 KiB MI payload, 70-entry map), 3 repeated calls on the shared input + 1 on a fresh copy. clock: 4 calls whose optional time fields are zero (signed subset, signed message, Signature header) or absent, repeated after 1.1 s of wall-clock time. races (auxiliary): every ordered pair as free-running goroutines in a -race build, and each large-input call against itself. Non-trivial = >=2 map entries / non-empty history / a complete schedule; distinct by (scenario, vector).",
 		Assumptions: []string{
 			"Go map iteration order is runtime-internal and not behind a seam: order-independence is decided by enumerating every insertion permutation (small maps iterate as rotations of insertion order) with repeated calls, not by controlling the iteration",
 			"the cooperative scheduler explores interleavings at hooked operations only; unsynchronised accesses between hooks are the race detector's job (separate free-running -race pass, auxiliary evidence, not model checking)",
 			"ECDSA signature bytes are excluded: signing uses the repository's deterministic MockSigningAlgorithm",
 		},
-		Harnesses: []*mc.Harness{permH, histH, largeH, schedH, raceH},
+		Harnesses: []*mc.Harness{permH, histH, largeH, clockH, schedH, raceH},
 		Guard: func(s map[string]*mc.Stats) error {
 			if s["C18/schedules"].Executions < 1000 {
 				return errors.New("schedule exploration too small")
